@@ -24,13 +24,14 @@ pub struct Ops {
     pub mrg: fn(&Arc<Schema>, &DynMsg, Vec<u8>, &mut Oracle) -> String,
     pub dld: fn(&Arc<Schema>, usize, Vec<u8>, &mut Oracle) -> String,
     pub cat: fn(&Arc<Schema>, &DynMsg, &DynMsg, &mut Oracle) -> String,
+    pub leak: fn(Vec<u8>, &mut Oracle) -> String,
     /// the emitted encoder, for the request generators
     pub raw_enc: fn(&DynMsg) -> Vec<u8>,
     pub raw_enc_ld: fn(&DynMsg) -> Vec<u8>,
 }
 impl Ops {
     pub fn of<T: Message + Default + Clone + Glue>() -> Ops {
-        Ops { enc: v_enc::<T>, dec: v_dec::<T>, mrg: v_mrg::<T>, dld: v_dld::<T>, cat: v_cat::<T>, raw_enc: raw_enc::<T>, raw_enc_ld: raw_enc_ld::<T> }
+        Ops { enc: v_enc::<T>, dec: v_dec::<T>, mrg: v_mrg::<T>, dld: v_dld::<T>, cat: v_cat::<T>, leak: v_leak::<T>, raw_enc: raw_enc::<T>, raw_enc_ld: raw_enc_ld::<T> }
     }
 }
 pub struct Entry { pub name: &'static str, pub file: usize, pub idx: usize, pub ops: Ops }
@@ -165,8 +166,40 @@ fn v_cat<T: Message + Default + Clone + Glue>(s: &Arc<Schema>, ma: &DynMsg, mb: 
     finish(false, s, whole.map(|m| (m, 0)), dynamic, o)
 }
 
+/// C19 for emitted protobuf types: every truncation of `input` and every single-byte corruption from a fixed set of values is
+/// decoded; when the decode fails, the live heap must be back where it was once the error and our own handle on the input are
+/// dropped (a value that still held references into the input would keep the input's allocation alive).
+/// pbeleak <type> <hex>  -> ok n=<len> tried=<failing decodes> leaks=<list of cut:N / flip:POS:VAL, or ->
+fn v_leak<T: Message + Default + Clone + Glue>(input: Vec<u8>, o: &mut Oracle) -> String {
+    use std::sync::atomic::Ordering::Relaxed;
+    let run = |bytes: &[u8]| -> (bool, bool) {
+        let before = crate::LIVE.load(Relaxed);
+        let failed;
+        { let buf = Bytes::copy_from_slice(bytes); let r = T::decode(buf); failed = r.is_err(); drop(r); }
+        (failed, crate::LIVE.load(Relaxed) != before)
+    };
+    // warm up (lazily initialised statics, thread locals)
+    let _ = run(&input); let _ = run(&input[..input.len() / 2]);
+    let mut leaks: Vec<String> = vec![];
+    let mut tried = 0usize;
+    for cut in 0..input.len() {
+        let (failed, leaked) = run(&input[..cut]);
+        if failed { tried += 1; if leaked { leaks.push(format!("cut:{}", cut)); } }
+    }
+    for pos in 0..input.len() {
+        for val in [0x00u8, 0x07, 0x0f, 0x3f, 0x7f, 0x80, 0xff, input[pos] ^ 0x01, input[pos] ^ 0x04, input[pos].wrapping_add(1)] {
+            if val == input[pos] { continue; }
+            let mut m = input.clone(); m[pos] = val;
+            let (failed, leaked) = run(&m);
+            if failed { tried += 1; if leaked { leaks.push(format!("flip:{}:{:02x}", pos, val)); } }
+        }
+    }
+    if !leaks.is_empty() { o.fail("C19", format!("failed decode of an emitted protobuf type leaves heap memory or buffer references behind at {:?}", &leaks[..leaks.len().min(8)])); }
+    format!("ok n={} tried={} leaks={}", input.len(), tried, if leaks.is_empty() { "-".to_string() } else { leaks.join(",") })
+}
+
 pub fn exec(verb: &str, items: &[Sexp], o: &mut Oracle) -> Option<String> {
-    if !matches!(verb, "pbeenc" | "pbedec" | "pbemrg" | "pbedld" | "pbecat" | "pbespecchk") { return None; }
+    if !matches!(verb, "pbeenc" | "pbedec" | "pbemrg" | "pbedld" | "pbecat" | "pbespecchk" | "pbeleak") { return None; }
     let a = |i: usize| items.get(i).and_then(|x| x.atom());
     let bad = || Some("bad-request".to_string());
     let tb = table();
@@ -177,6 +210,7 @@ pub fn exec(verb: &str, items: &[Sexp], o: &mut Oracle) -> Option<String> {
         let (Some(rs), Some(ri)) = (items.get(at).and_then(Schema::of_sexp), a(at + 1).and_then(|x| x.parse::<usize>().ok())) else { return false };
         rs == **s && ri == e.idx
     };
+    if verb == "pbeleak" { let Some(input) = a(2).and_then(unhex) else { return bad() }; return Some((e.ops.leak)(input, o)); }
     Some(match verb {
         "pbespecchk" => {
             // pbespecchk <type> <pschema> <i> <msg> <hex>: hex is claimed to be a conforming encoding of msg  -> ok 1 <emitted decode>
